@@ -90,6 +90,9 @@ def build(tid, parser_version=None, renames=False, env=None):
         R.KconfigReport._instance = None
         old = {}
         env = dict(env or {})
+        if tid.startswith("F:gen_kconfig_doc/"):
+            env.setdefault("srctree", FIXROOT + "/gen_kconfig_doc")
+            env.setdefault("IDF_TARGET", os.environ.get("IDF_TARGET", "chipa"))
         env.setdefault("IDF_TARGET", "esp32")
         if tid.startswith("F:kconfiglib/kconfigs/"):
             # environment the repository's own tests give these fixtures
